@@ -300,6 +300,7 @@ func famC01(r *Run) {
 	famNearTwins(r)
 	famLongChains(r)
 	famPipeJSONStrings(r)
+	famCaseTwins(r)
 }
 
 // ---- C02: projections ----
@@ -338,6 +339,9 @@ func famC02(r *Run) {
 	}
 	famFunctionEdges(r)
 	famObjectEquality(r)
+	famSliceNonArrays(r)
+	famFilterMixed(r)
+	famNullHoles(r)
 }
 
 // ---- C03: precedence ----
@@ -519,6 +523,7 @@ func famC04(r *Run) {
 	famBackslashRuns(r)
 	famQuotedControl(r)
 	famBadQuoted(r)
+	famNonASCIIBare(r)
 }
 
 // ---- C05: no panic, always returns ----
@@ -661,6 +666,8 @@ func famC05(r *Run) {
 	famNonFinite(r)
 	famLongChains(r)
 	famQuotedControl(r)
+	famNonASCIIBare(r)
+	famSourceFunctionNames(r)
 }
 
 // ---- C06: input never modified (the generic oracle does the work) ----
@@ -689,6 +696,7 @@ func famC06(r *Run) {
 	famC06extra(r)
 	famFunctionEdges(r)
 	famJSONNumberDocs(r)
+	famNullHoles(r)
 }
 
 // ---- C07: truth, logic, comparators ----
@@ -751,6 +759,7 @@ func famC07(r *Run) {
 	r.corpusSearch("compliance", func(f exprFeatures) bool { return f.lexOK && f.logic && !f.funcs && !f.orderExposing })
 	famNotComparisons(r)
 	famObjectEquality(r)
+	famFilterMixed(r)
 }
 
 // ---- C08: slices ----
@@ -819,6 +828,8 @@ func famC08(r *Run) {
 		}
 	}
 	famNumberSpellings(r)
+	famSliceNonArrays(r)
+	famSlicePairs(r)
 }
 
 // ---- C09: functions on well-typed arguments ----
@@ -981,6 +992,7 @@ func famC10(r *Run) {
 	famFunctionEdges(r)
 	famGoNumbers(r)
 	famNonFinite(r)
+	famSourceFunctionNames(r)
 }
 
 // ---- C11: error propagation ----
@@ -1058,6 +1070,7 @@ func famC11(r *Run) {
 	}
 	r.treeCases("G-expr-badcalls", r.n(600, 10000), Features{Proj: true, Logic: true, Funcs: true, BadCalls: true, Paren: true}, 5)
 	famFunctionEdges(r)
+	famTypedSliceErrors(r)
 }
 
 func i64(v int64) *int64 { return &v }
